@@ -229,6 +229,9 @@ class Exec:
                           '>': '(%s <? %s)', '>=': '(%s <=? %s)'}[op]
                     x, y = (b[1], a[1]) if op in ('>', '>=') else (a[1], b[1])
                     return k(('bool', tm % (x, y)))
+                if a[0] == 'bool' and b[0] == 'bool' and op in ('==', '!='):
+                    z = '(Bool.eqb %s %s)' % (a[1], b[1])
+                    return k(('bool', z if op == '==' else '(negb %s)' % z))
                 if a[0] == 'obj' and b == ('obj', 'None') and op in ('==', '!='):
                     z = '(match %s with None => true | Some _ => false end)' % a[1]
                     return k(('bool', z if op == '==' else '(negb %s)' % z))
